@@ -38,9 +38,15 @@ Proof. exact BerInt.c07_int_shortest_repaired. Qed.
 Theorem c07_bool_octet : forall b : bool, bool_octets b = [if b then xff else x00].
 Proof. exact BerInt.bool_octets_spec. Qed.
 
+(* ... and they are the only shortest octets of that value: INTEGER / ENUMERATED contents are canonical *)
+Theorem c07_int_canonical : forall z bs, (- 2^63 <= z < 2^63)%Z -> shortest bs -> twos bs = z -> bs = int_octets z.
+Proof. exact BerInt.c07_int_canonical. Qed.
+
+
 Print Assumptions c07_any_encoding_parses.
 Print Assumptions c07_encode_is_encoding.
 Print Assumptions c07_roundtrip.
 Print Assumptions c07_length_minimal.
 Print Assumptions c07_int_shortest.
 Print Assumptions c07_bool_octet.
+Print Assumptions c07_int_canonical.
